@@ -111,6 +111,77 @@ var c15Comments = []struct{ body, nonspace string }{
 	{"{msg desc=\"d\"}{literal}{NAME} {0}{/literal}{/msg}", "{NAME}{0}"},
 }
 
+// c15Tokens is the alphabet of the comment grammar: every sequence of up to four (thorough five) of them is a template body.
+var c15Tokens = []string{"a", "/", "*", "//", "/*c*/", "/**/", " ", "\n", ":", "{$ij.x}"}
+
+func c15GrammarCount(tier string) int {
+	n, p := 0, 1
+	max := 4
+	if tier == "thorough" {
+		max = 5
+	}
+	for l := 1; l <= max; l++ {
+		p *= len(c15Tokens)
+		n += p
+	}
+	return n
+}
+
+// c15GrammarBody is the k-th token sequence, shortest first.
+func c15GrammarBody(k int) string {
+	l, p := 1, len(c15Tokens)
+	for k >= p {
+		k -= p
+		p *= len(c15Tokens)
+		l++
+	}
+	var b strings.Builder
+	for j := 0; j < l; j++ {
+		b.WriteString(c15Tokens[k%len(c15Tokens)])
+		k /= len(c15Tokens)
+	}
+	return b.String()
+}
+
+// c15StripComments removes what the statement calls comments from a template body that follows a line break:
+// /* ... */ anywhere, // ... to the end of the line when it follows white space. judged is false where the
+// statement does not say (an unclosed comment, // directly after a comment or a tag).
+func c15StripComments(body string) (out string, judged bool) {
+	var b strings.Builder
+	i := 0
+	afterSpace, afterOther := true, false // what precedes position i: white space / a comment's end or a tag
+	for i < len(body) {
+		switch {
+		case strings.HasPrefix(body[i:], "/*"):
+			j := strings.Index(body[i+2:], "*/")
+			if j < 0 {
+				return "", false
+			}
+			i += 2 + j + 2
+			afterSpace, afterOther = false, true
+		case strings.HasPrefix(body[i:], "//") && afterOther:
+			return "", false
+		case strings.HasPrefix(body[i:], "//") && afterSpace:
+			j := strings.IndexByte(body[i:], '\n')
+			if j < 0 {
+				j = len(body) - i
+			}
+			i += j
+			afterSpace, afterOther = false, true // (i is at the line break or at the end)
+		case strings.HasPrefix(body[i:], "{$ij.x}"):
+			b.WriteString("X")
+			i += len("{$ij.x}")
+			afterSpace, afterOther = false, true
+		default:
+			c := body[i]
+			b.WriteByte(c)
+			i++
+			afterSpace, afterOther = c == ' ' || c == '\n' || c == '\t' || c == '\r', false
+		}
+	}
+	return b.String(), true
+}
+
 func stripSpace(s string) string {
 	return strings.NewReplacer(" ", "", "\t", "", "\n", "", "\r", "").Replace(s)
 }
@@ -133,13 +204,47 @@ func init() {
 			"Oracle: the line-joining rule (ref.RawText). A case is a batch of 200 templates compiled together. distinct = distinct (text run, neighbour pair); non-trivial = run contains whitespace",
 		N: func(tier string) int {
 			ex, pf, rnd := c15Sizes(tier)
-			return (ex+c15Batch-1)/c15Batch + (pf*len(c15Left)*len(c15Right)+c15Batch-1)/c15Batch + rnd/c15Batch + 1
+			return (ex+c15Batch-1)/c15Batch + (pf*len(c15Left)*len(c15Right)+c15Batch-1)/c15Batch + rnd/c15Batch + 1 + (c15GrammarCount(tier)+c15Batch-1)/c15Batch
 		},
 		Exhaustive: func(tier string) bool { return true },
 		Run: func(ctx *fw.Ctx, i int) fw.Result {
-			ex, pf, _ := c15Sizes(ctx.Tier)
+			ex, pf, rnd := c15Sizes(ctx.Tier)
 			nEx := (ex + c15Batch - 1) / c15Batch
 			nPf := (pf*len(c15Left)*len(c15Right) + c15Batch - 1) / c15Batch
+			if n0 := nEx + nPf + rnd/c15Batch + 1; i >= n0 {
+				// the comment grammar: every short sequence of slashes, stars, comments, blanks and text
+				var src strings.Builder
+				src.WriteString("{namespace t}\n")
+				type gcase struct{ name, body, want string }
+				var gs []gcase
+				for k := (i - n0) * c15Batch; k < (i-n0+1)*c15Batch && k < c15GrammarCount(ctx.Tier); k++ {
+					body := c15GrammarBody(k)
+					want, judged := c15StripComments(body)
+					if !judged {
+						ctx.Obs("comment_grammar_not_judged", 1)
+						continue
+					}
+					name := fmt.Sprintf("g%d", k)
+					fmt.Fprintf(&src, "{template .%s}\n%s\n{/template}\n", name, body)
+					gs = append(gs, gcase{name, body, stripSpace(want)})
+				}
+				file := srcFile{"c15g.soy", src.String()}
+				tofu, err := compile([]srcFile{file}, nil)
+				if err != nil {
+					return fw.Result{Verdict: fw.Violated, Key: "compile-rejects-valid:comment-grammar", Case: file, Msg: "template text made of slashes, stars, comments and blanks rejected: " + errText(err)}
+				}
+				ijv := ref.MapOf("x", ref.Str("X"))
+				for _, g := range gs {
+					got, err := render(tofu, "t."+g.name, map[string]ref.Value{}, &ijv, nil)
+					ctx.Eval("grammar:" + g.body)
+					ctx.Obs("comment_grammar_cases", 1)
+					if err != nil || stripSpace(got) != g.want {
+						return fw.Result{Verdict: fw.Violated, Key: "comment-grammar", Case: g.body,
+							Msg: fmt.Sprintf("body %q: want non-space characters %q, got %q (err %v)", g.body, g.want, got, err)}
+					}
+				}
+				return fw.Result{Verdict: fw.Held}
+			}
 			type one struct{ name, text, want, l, r string }
 			var cases []one
 			var src strings.Builder
